@@ -234,8 +234,14 @@ pub fn to_float<const N: usize>(s: Sign, f64_: bool, top: Word) {
 pub fn from_f32(elo: u32, ehi: u32, neg: bool, to_u: bool) {
     let m: u32 = nd::any();
     nd::assume(m < (1 << 23));
-    let expf: u32 = nd::any();
-    nd::assume(expf >= elo && expf <= ehi);
+    // a single exponent field is passed as a LITERAL (the shift amounts inside the conversion are then constants)
+    let expf: u32 = if elo == ehi {
+        elo
+    } else {
+        let e: u32 = nd::any();
+        nd::assume(e >= elo && e <= ehi);
+        e
+    };
     let bits = ((neg as u32) << 31) | (expf << 23) | m;
     let x = f32::from_bits(bits);
     // exact value: mant * 2^e
@@ -260,15 +266,55 @@ pub fn from_f32(elo: u32, ehi: u32, neg: bool, to_u: bool) {
                 assert!(finite && is_int && (!neg || zero), "accepted a value that is not a non-negative integer");
                 assert!(check_u(&u, &mag));
             }
-            Err(_) => {} // a refusal is always within the property (lossless or refused)
+            Err(_) => assert!(!(finite && is_int) || (neg && !zero), "an integral non-negative finite float was refused"),
         }
     } else {
         match IBig::try_from(x) {
             Ok(i) => {
                 assert!(finite && is_int, "accepted a value that is not an integer");
-                assert!(check_i(&i, if neg { NEG } else { POS }, &mag));
+                assert!(check_i(&i, if neg && !zero { NEG } else { POS }, &mag));
             }
-            Err(_) => {}
+            Err(_) => assert!(!(finite && is_int), "an integral finite float was refused"),
+        }
+    }
+}
+
+/// the same for f64 with a LITERAL exponent field (11 bits) and every 52-bit mantissa
+pub fn from_f64_exp(expf: u64, neg: bool, to_u: bool) {
+    let m: u64 = nd::any();
+    nd::assume(m < (1 << 52));
+    let bits = ((neg as u64) << 63) | (expf << 52) | m;
+    let x = f64::from_bits(bits);
+    let (mant, e): (u64, i32) = if expf == 0 { (m, -1074) } else { (m | (1 << 52), expf as i32 - 1075) };
+    let finite = expf != 0x7ff;
+    // e is a literal here: only exponents with -63 <= e <= 64 are registered
+    let is_int = e >= 0 || (-e <= 63 && mant & ((1u64 << (-e) as u32) - 1) == 0) || mant == 0;
+    let mut mag = [0 as Word; 6];
+    if finite && is_int {
+        let v: u128 = if mant == 0 { 0 } else if e >= 0 { (mant as u128) << (e as u32) } else { (mant >> (-e) as u32) as u128 };
+        let w = words_of(v);
+        let mut i = 0;
+        while i < NW {
+            mag[i] = w[i];
+            i += 1;
+        }
+    }
+    let zero = mant == 0;
+    if to_u {
+        match UBig::try_from(x) {
+            Ok(u) => {
+                assert!(finite && is_int && (!neg || zero), "accepted a value that is not a non-negative integer");
+                assert!(check_u(&u, &mag));
+            }
+            Err(_) => assert!(!(finite && is_int) || (neg && !zero), "an integral non-negative finite float was refused"),
+        }
+    } else {
+        match IBig::try_from(x) {
+            Ok(i) => {
+                assert!(finite && is_int, "accepted a value that is not an integer");
+                assert!(check_i(&i, if neg && !zero { NEG } else { POS }, &mag));
+            }
+            Err(_) => assert!(!(finite && is_int), "an integral finite float was refused"),
         }
     }
 }
